@@ -405,6 +405,30 @@ class FieldElem(EvalObj):
     def __truediv__(self, o):
         return self * o.inverse()
 
+    def conjugates(self):
+        # the orbit under squaring (reference implementation of the model, own arithmetic)
+        from .constfold import PySeq
+
+        out, e = [self], self * self
+        while e != self and len(out) < self.field.m:
+            out.append(e)
+            e = e * e
+        return PySeq(out)
+
+    def minimal_polynomial(self):
+        # product of (X + c) over the conjugates c, coefficients in GF(2^m) (they end up in GF(2))
+        coeffs = [1]  # lowest degree first, field elements as integers
+        mod = self.field.modulus.value
+        for c in self.conjugates():
+            nxt = [0] * (len(coeffs) + 1)
+            for j, a in enumerate(coeffs):
+                nxt[j + 1] ^= a
+                nxt[j] ^= pmulmod(a, c.value, mod)
+            coeffs = nxt
+        if any(a not in (0, 1) for a in coeffs):
+            raise ArithmeticError("minimal polynomial with coefficients outside GF(2)")
+        return BP(sum(a << j for j, a in enumerate(coeffs)))
+
     def __eq__(self, o):
         return isinstance(o, FieldElem) and o.value == self.value
 
